@@ -100,8 +100,12 @@ func shapeUniverse() []*eng.MT {
 }
 
 // pathsTo: flattened paths of fd cut at the first atom for which hit() is true.
+// pathsToInline, when set, lets pathsTo enter helpers (same-package functions that select what
+// the caller emits or flags).
+var pathsToInline func(call *ast.CallExpr, depth int) (*ast.BlockStmt, *ast.FuncDecl)
+
 func pathsTo(info *types.Info, fd *ast.FuncDecl, hit func(a eng.Atom) bool) [][]eng.Atom {
-	w := &eng.Walker{Info: info, MaxPaths: 20000}
+	w := &eng.Walker{Info: info, MaxPaths: 20000, Inline: pathsToInline, MaxDepth: 2}
 	var out [][]eng.Atom
 	for _, atoms := range flattenPaths(w.Func(fd.Body), 60000) {
 		for i, a := range atoms {
@@ -119,6 +123,21 @@ func feasibleUnder(in *eng.Interp, atoms []eng.Atom) bool {
 	in.Env = map[types.Object]eng.RV{}
 	for _, a := range atoms {
 		switch a.Kind {
+		case "enter":
+			// an inlined helper: its parameters hold the values of the arguments
+			if a.Callee != nil && a.Callee.Type.Params != nil && a.Call != nil {
+				i := 0
+				for _, f := range a.Callee.Type.Params.List {
+					for _, nm := range f.Names {
+						if i < len(a.Call.Args) {
+							if obj := in.Info.Defs[nm]; obj != nil {
+								in.Env[obj] = in.Eval(a.Call.Args[i])
+							}
+						}
+						i++
+					}
+				}
+			}
 		case "assign":
 			in.Assign(a.Node.(*ast.AssignStmt))
 		case "cond":
@@ -329,6 +348,24 @@ func c15TypedOperators(p *core.Program, r *core.Report, e *engines, typeDep func
 		return
 	}
 	// opcodes emitted under a type-dependent condition: those with an asserting handler
+	pathsToInline = func(call *ast.CallExpr, depth int) (*ast.BlockStmt, *ast.FuncDecl) {
+		fn := eng.CalleeOf(info, call)
+		if fn == nil || fn.Pkg() != p.Pkg("compiler").Types || e.em.Prims[fn] != "" || fn == e.em.Encode {
+			return nil, nil
+		}
+		sig := fn.Type().(*types.Signature)
+		if sig.Recv() != nil || sig.Results().Len() != 1 {
+			return nil, nil
+		}
+		if b, ok := sig.Results().At(0).Type().Underlying().(*types.Basic); !ok || b.Kind() != types.Uint8 {
+			return nil, nil
+		}
+		if _, hfd := p.DeclOf(fn); hfd != nil && hfd.Body != nil {
+			return hfd.Body, hfd
+		}
+		return nil, nil
+	}
+	defer func() { pathsToInline = nil }()
 	universe := shapeUniverse()
 	emitted := map[string]bool{}
 	for _, t := range e.em.Templates["BinaryNode"] {
@@ -376,6 +413,37 @@ func c15TypedOperators(p *core.Program, r *core.Report, e *engines, typeDep func
 			}
 		}
 		specialised = specialised && nEmit > 0
+		{
+			// … and the operator alone does not determine it
+			alt := false
+			by := map[string][2]int{}
+			for _, t := range e.em.Templates["BinaryNode"] {
+				if t.Term == "panic" {
+					continue
+				}
+				has := false
+				for _, ev := range t.Events {
+					if ev.Kind == "instr" && ev.Op == op {
+						has = true
+					}
+				}
+				for _, l := range templateLabels(p, t, "Operator") {
+					c := by[l]
+					if has {
+						c[0]++
+					} else {
+						c[1]++
+					}
+					by[l] = c
+				}
+			}
+			for _, c := range by {
+				if c[0] > 0 && c[1] > 0 {
+					alt = true
+				}
+			}
+			specialised = specialised && alt
+		}
 		if specialised {
 			okAssert := len(ats) == 2 && ats[0] != nil && ats[1] != nil
 			if okAssert {
@@ -395,21 +463,35 @@ func c15TypedOperators(p *core.Program, r *core.Report, e *engines, typeDep func
 			continue
 		}
 		// is the opcode's emission type-selected? (emitted in a template with a type-dependent cond)
+		// (among the templates of one operator, some emit it and some do not: what is emitted
+		// depends on something besides the operator — the static types)
 		selected := false
-		for _, t := range e.em.Templates["BinaryNode"] {
-			has := false
+		emits := func(t *eng.Template) bool {
 			for _, ev := range t.Events {
 				if ev.Kind == "instr" && ev.Op == op {
-					has = true
+					return true
 				}
 			}
-			if !has {
+			return false
+		}
+		byLabel := map[string][2]int{} // label -> (templates emitting op, templates not emitting it)
+		for _, t := range e.em.Templates["BinaryNode"] {
+			if t.Term == "panic" {
 				continue
 			}
-			for _, c := range t.Conds {
-				if typeDep(c) != "" {
-					selected = true
+			for _, l := range templateLabels(p, t, "Operator") {
+				c := byLabel[l]
+				if emits(t) {
+					c[0]++
+				} else {
+					c[1]++
 				}
+				byLabel[l] = c
+			}
+		}
+		for _, c := range byLabel {
+			if c[0] > 0 && c[1] > 0 {
+				selected = true
 			}
 		}
 		if !selected {
